@@ -2004,6 +2004,13 @@ func (ls *LState) Resume(th *LState, fn *LFunction, args ...LValue) (ResumeState
 	if ls.Status(th) == "normal" {
 		return ResumeError, newApiErrorS(ApiErrorRun, "can not resume a normal thread"), nil
 	}
+	depth := 0
+	for p := ls; p != nil; p = p.Parent {
+		depth++
+	}
+	if depth >= maxResumeDepth {
+		return ResumeError, newApiErrorS(ApiErrorRun, "C stack overflow"), nil
+	}
 	th.Parent = ls
 	ls.G.CurrentThread = th
 	if !isstarted {
